@@ -7,6 +7,7 @@ package main
 import (
 	"bytes"
 	"context"
+	"encoding/json"
 	"fmt"
 	"regexp"
 	"strings"
@@ -23,8 +24,9 @@ import (
 
 func init() { checks["C14"] = runC14 }
 
-// c14ShortSourceRE: name or org/name, then an optional #ref (the ref may contain anything but '#').
-var c14ShortSourceRE = regexp.MustCompile(`^([A-Za-z0-9_-]+/)?([A-Za-z0-9_-]+)((?:#[^#]*)?)$`)
+// c14ShortSourceRE: name or org/name, then an optional #ref over the git-legal alphabet of the documented forms
+// (percent signs and other characters are outside them: net/url may reject such a source, which is then left as written).
+var c14ShortSourceRE = regexp.MustCompile(`^([A-Za-z0-9_-]+/)?([A-Za-z0-9_-]+)((?:#[A-Za-z0-9._/-]*)?)$`)
 
 type stepSource struct {
 	src []byte
@@ -360,6 +362,75 @@ func runC14(c *ctx) error {
 			}
 		}
 		differ("repository URL loses its last character", st, trimLast(repo), copyEnv(penv))
+		if len(st.Plugins) >= 1 {
+			// a falsy scalar is a config of its own: not null, not {} and not another falsy scalar
+			cur, _ := json.Marshal(st.Plugins[0].Config)
+			if m, ok := st.Plugins[0].Config.(map[string]any); ok && len(m) == 0 {
+				cur = []byte("null")
+			}
+			if l, ok := st.Plugins[0].Config.([]any); ok && len(l) == 0 {
+				cur = []byte("null")
+			}
+			for _, cand := range []any{false, 0, "", nil} {
+				cj, _ := json.Marshal(cand)
+				if string(cj) == string(cur) {
+					continue
+				}
+				if s2 := ss.fresh(); s2 != nil {
+					s2.Plugins[0].Config = cand
+					differ(fmt.Sprintf("plugin config replaced by %s", cj), s2, repo, copyEnv(penv))
+				}
+			}
+		}
+		if st.Matrix != nil {
+			// key order inside order-preserving mappings nested in the signed matrix is not part of the payload
+			if s2 := ss.fresh(); s2 != nil && s2.Matrix != nil {
+				changed := false
+				var rev func(v any) any
+				rev = func(v any) any {
+					switch t := v.(type) {
+					case *ordered.MapSA:
+						var ks []string
+						var vs []any
+						t.Range(func(k string, x any) error { ks = append(ks, k); vs = append(vs, rev(x)); return nil })
+						out := ordered.NewMap[string, any](len(ks))
+						for i := len(ks) - 1; i >= 0; i-- {
+							out.Set(ks[i], vs[i])
+						}
+						if len(ks) > 1 {
+							changed = true
+						}
+						return out
+					case []any:
+						out := make([]any, len(t))
+						for i, e := range t {
+							out[i] = rev(e)
+						}
+						return out
+					case map[string]any:
+						out := map[string]any{}
+						for k, x := range t {
+							out[k] = rev(x)
+						}
+						return out
+					}
+					return v
+				}
+				for k, v := range s2.Matrix.RemainingFields {
+					s2.Matrix.RemainingFields[k] = rev(v)
+				}
+				for _, a := range s2.Matrix.Adjustments {
+					if a != nil {
+						for k, v := range a.RemainingFields {
+							a.RemainingFields[k] = rev(v)
+						}
+					}
+				}
+				if changed {
+					collide("keys of nested order-preserving mappings inside the matrix reordered", s2, copyEnv(penv))
+				}
+			}
+		}
 		if len(st.Plugins) >= 2 && st.Plugins[0].FullSource() != st.Plugins[1].FullSource() {
 			s2 := ss.fresh()
 			s2.Plugins[0], s2.Plugins[1] = s2.Plugins[1], s2.Plugins[0]
